@@ -276,14 +276,17 @@ def run_problem(case):
     nd = mesh.dim
     sym = (False, True, False)[:nd] + (False,) * (3 - nd) if fk == "axi" else (False,) * 3
     tol = np.sqrt(np.finfo(float).eps)
-    sequences = [[0.0], [0.05], [0.05, 0.12, 0.05], [0.3], [-0.15, 0.1], [4.0], [0.05, 4.0, 0.1]]
+    sequences = [[0.0], [0.05], [0.05, 0.12, 0.05], [0.3], [-0.15, 0.1], [4.0], [0.05, 4.0, 0.1], [0.1, 0.0, -0.05]]
     for seq in sequences:
-        for maxiter in (1, 2, 16):
+        for maxiter, layout in ((1, "C"), (2, "C"), (16, "C"), (16, "F")):
             f = field.copy()
+            if layout == "F":  # start values handed over in Fortran order (the library keeps the array it is given)
+                for fl in f.fields:
+                    fl.values = np.asfortranarray(fl.values)
             items = mk_items(f)
             bounds, lc = fem.dof.uniaxial(f, clamped=True, move=0.0, axis=0, sym=sym)
             x = f
-            label = f"moves={seq}/maxiter={maxiter}"
+            label = f"moves={seq}/maxiter={maxiter}" + ("" if layout == "C" else "/layout=F")
             for si, mv in enumerate(seq):
                 bounds["move"].update(mv)
                 dof0, dof1 = lc["dof0"], lc["dof1"]
